@@ -14,6 +14,7 @@ mod ops_hash;
 mod ops_prot;
 mod ops_pwhash;
 mod ops_rand;
+mod ops_serde;
 mod ops_stream;
 mod util;
 
@@ -37,6 +38,9 @@ fn dispatch(op: &str, args: &[&str]) -> Ans {
     }
     #[cfg(feature = "nightly")]
     if let Some(a) = ops_prot::dispatch(op, args) {
+        return a;
+    }
+    if let Some(a) = ops_serde::dispatch(op, args) {
         return a;
     }
     if let Some(a) = ops_rand::dispatch(op, args) {
